@@ -41,6 +41,18 @@ CHECKS = {
          "deterministic bytes in the harness; exact capacity after growth is not compared; purge/set_removed only in growth "
          "modes no/yes; Area builders are not covered.",
     technique="TLA+ spec + TLC; spec-to-code replay of exported API histories with per-step state comparison"),
+ "C15": dict(
+    category="model_checking",
+    text="Four specs (IdSetDense, IdSetSmall, RelationsMap, ItemStash) each carry the implementation-shaped state (chunk "
+         "vector and skipping iterator; vector with sort_unique/merge; the 32/64 bit flat maps and the three index builders; "
+         "buffer + offset index + counters + should_gc + the purge cursor walk) next to the mathematical set/map, and TLC "
+         "checks I => A over all bounded histories. TLC-exported histories are replayed on the real containers (several "
+         "instantiations incl. the top of the uint32 range and ids beyond 2^32) comparing every return value, size, "
+         "ascending iteration, lookup list and every live handle's content.",
+    design_ref="DESIGN.md section 4, C15",
+    note="Scaled-down geometry embedded border-preservingly into the real id space; ItemStash GC threshold lowered through "
+         "the OSMIUM_VERIF_STASH_GC_MIN hook; histories bounded (depth 7-14).",
+    technique="TLA+ specs + TLC refinement check; spec-to-code replay of exported histories with per-call comparison"),
 }
 
 NOT_APPLICABLE = {
